@@ -90,8 +90,8 @@ prop("C16", True, "model_checking",
      "Neutrality outside the trigger for the six relaxing options (alone and combined), exact prediction for special schemes, the five replaced percent-encode sets, remove-user-info/port/fragment (standard's setters), default-scheme, skip-equals (list machine), no-option parsers/profiles (also ParseRef with an empty base); postconditions for collapse, single-percent, sort-query.",
      TB, "DESIGN.md section 4/C16")
 prop("C17", True, "model_checking",
-     "exact TLA+ model of the canonicalizer pipeline (spec/Canon.tla CanonRun: default-scheme retry, repeated percent-decoding re-entered through the standard's setters, remove-*, sort-query on the list machine; GoogleSafeBrowsing and Semantic as option records on their exact domain) + the fixed-point law; both evaluated by TLC on outputs observed from the real profiles",
-     "For WhatWg, WhatWgSortQuery and 9 option-composed profiles the OUTPUT of every string of the parse families is predicted by the specification and compared (so a wrong canonical form is caught even when it is a fixed point); for GoogleSafeBrowsing and Semantic the output is predicted on every spelling of the TLC-enumerated ordinary-web-URL grammar (where the unmodelled options - lax host, accept-invalid, Latin-1 override - cannot matter: Canon!ExactDomain) and the fixed-point law is checked on all of them. Known findings F03 / F14 are characterised by spec-evaluated predicates on the list stored in the first output.",
+     "exact TLA+ model of the canonicalizer pipeline (spec/Canon.tla CanonRun: default-scheme retry, repeated percent-decoding re-entered through the standard's setters, remove-*, sort-query on the list machine; GoogleSafeBrowsing and Semantic as option records incl. lax host / accept-invalid / Latin-1) + the fixed-point law; both evaluated by TLC on outputs observed from the real profiles",
+     "For WhatWg, WhatWgSortQuery and 9 option-composed profiles the OUTPUT of every string of the parse families is predicted by the specification and compared (so a wrong canonical form is caught even when it is a fixed point); for GoogleSafeBrowsing and Semantic the output is predicted for every string too (lax host parsing, accept-invalid-code-points and the Latin-1 override are modelled in spec/BasicParser.tla), and the fixed-point law is demanded of them on every spelling of the TLC-enumerated ordinary-web-URL grammar. Known findings F03 / F14 are characterised by spec-evaluated predicates on the list stored in the first output.",
      TB, "DESIGN.md section 4/C17, 10.1")
 prop("C18", True, "model_checking",
      "variation operators of spec/Canon.tla (18 structural variations + escapes at segment / parameter name / value / fragment); TLC emits classes (abstract URL x all combinations of up to 2-3 variations); class equality evaluated by TLC on real outputs; for standard-normalised variations TLC also proves equality on the spec (StdClassInv)",
